@@ -1,7 +1,7 @@
 (* Proofs/ExperimentsP.v — lemmas about Model/Experiments.v (property C05). *)
 From Coq Require Import QArith Qabs Sorted Permutation Lia.
 From CKT Require Import Common.Base Common.Circ Model.Decompose Model.Measurement Model.ResetPasses
-  Model.Weights Model.Observables Model.Grouping Model.Experiments
+  Model.Observables Model.Grouping Model.Experiments
   Proofs.DecomposeP Proofs.MeasurementP Proofs.ResetPassesP.
 Close Scope Q_scope.
 
@@ -110,10 +110,10 @@ Qed.
 (* ====================================================================== *)
 (* C. sums and products over Q                                             *)
 (* ====================================================================== *)
-Lemma qsum_app a b : (qsum (a ++ b) == qsum a + qsum b)%Q.
+Lemma qsum_app a b : (sumQ (a ++ b) == sumQ a + sumQ b)%Q.
 Proof. induction a as [|x a IH]; simpl; [ring|]. rewrite IH. ring. Qed.
 
-Lemma qsum_perm (l l' : list Q) : Permutation l l' -> (qsum l == qsum l')%Q.
+Lemma qsum_perm (l l' : list Q) : Permutation l l' -> (sumQ l == sumQ l')%Q.
 Proof.
   induction 1 as [|x l l' H IH|x y l|l l' l'' H1 IH1 H2 IH2]; simpl.
   - reflexivity.
@@ -123,22 +123,22 @@ Proof.
 Qed.
 
 Lemma qsum_map_ext {A} (f g : A -> Q) l :
-  (forall x, In x l -> (f x == g x)%Q) -> (qsum (map f l) == qsum (map g l))%Q.
+  (forall x, In x l -> (f x == g x)%Q) -> (sumQ (map f l) == sumQ (map g l))%Q.
 Proof.
   induction l as [|x r IH]; intros H; simpl; [reflexivity|].
   rewrite (H x (or_introl eq_refl)), IH; [reflexivity|]. intros y Hy; apply H; now right.
 Qed.
 
-Lemma qsum_scale {A} (c : Q) (f : A -> Q) l : (qsum (map (fun x => f x * c) l) == qsum (map f l) * c)%Q.
+Lemma qsum_scale {A} (c : Q) (f : A -> Q) l : (sumQ (map (fun x => f x * c) l) == sumQ (map f l) * c)%Q.
 Proof. induction l as [|x r IH]; simpl; [ring|]. rewrite IH. ring. Qed.
 
-Lemma qsum_nonneg l : (forall x, In x l -> (0 <= x)%Q) -> (0 <= qsum l)%Q.
+Lemma qsum_nonneg l : (forall x, In x l -> (0 <= x)%Q) -> (0 <= sumQ l)%Q.
 Proof.
   induction l as [|x r IH]; intros H; simpl; [apply Qle_refl|].
   replace 0%Q with (0 + 0)%Q by reflexivity. apply Qplus_le_compat; [apply H; now left|apply IH; intros; apply H; now right].
 Qed.
 
-Lemma qprod_nonneg l : (forall x, In x l -> (0 <= x)%Q) -> (0 <= qprod l)%Q.
+Lemma qprod_nonneg l : (forall x, In x l -> (0 <= x)%Q) -> (0 <= prodQ l)%Q.
 Proof.
   induction l as [|x r IH]; intros H; simpl; [discriminate|].
   apply Qmult_le_0_compat; [apply H; now left|apply IH; intros; apply H; now right].
@@ -154,9 +154,9 @@ Proof.
   apply qprod_nonneg. intros x Hx. apply in_map_iff in Hx as (c & <- & _). apply kappa_of_nonneg.
 Qed.
 
-Lemma qprod_abs l : (Qabs (qprod l) == qprod (map Qabs l))%Q.
+Lemma qprod_abs l : (Qabs (prodQ l) == prodQ (map Qabs l))%Q.
 Proof.
-  induction l as [|x r IH]; [reflexivity|]. unfold qprod in *. cbn [fold_right map].
+  induction l as [|x r IH]; [reflexivity|]. unfold prodQ in *. cbn [fold_right map].
   now rewrite Qabs_Qmult, IH.
 Qed.
 
@@ -198,9 +198,15 @@ Proof.
     split; [simpl; congruence|]. simpl. constructor; auto.
 Qed.
 
+Lemma total_weight_eq W : (total_weight W == sumQ (map s_w W))%Q.
+Proof.
+  induction W as [|s W IH]; [reflexivity|]. cbn [total_weight fold_right map].
+  fold (total_weight W). rewrite Qred_correct, IH. reflexivity.
+Qed.
+
 (* what `core` returns, read off its definition *)
 Definition row_ok (gh gsx : nat) (env : benv) (C : list (list Q)) (table : list (nat * pinfo))
-           (og : list (nat * list ogroup)) (total : Q) (s : sample) (r : (Q * wtype) * list (list mcirc)) : Prop :=
+           (og : list (nat * list ogroup)) (total : Q) (s : sample) (r : (Q * wkind) * list (list mcirc)) : Prop :=
   exists cs, chosen_coeffs C (s_ids s) = Ok cs /\
              mapM (per_label gh gsx env table (s_ids s)) og = Ok (snd r) /\
              fst r = (coeff_value total (kappa_all C) (s_w s) cs, s_t s).
@@ -208,7 +214,7 @@ Definition row_ok (gh gsx : nat) (env : benv) (C : list (list Q)) (table : list 
 Lemma core_inv gh gsx env C table og W out coeffs :
   core gh gsx env C table og W = Ok (out, coeffs) ->
   exists rows,
-    Forall2 (row_ok gh gsx env C table og (qsum (map s_w W))) (sort_samples W) rows /\
+    Forall2 (row_ok gh gsx env C table og (total_weight W)) (sort_samples W) rows /\
     out = collect (map fst og) (map snd rows) /\ coeffs = map fst rows.
 Proof.
   unfold core. intros H. apply res_bind_ok in H as (rows & Hm & H). inversion H; subst; clear H.
@@ -219,12 +225,12 @@ Proof.
   inversion Hr; subst; clear Hr. exists cs. simpl. auto.
 Qed.
 
-Definition coeff_ok (C : list (list Q)) (total : Q) (s : sample) (c : Q * wtype) : Prop :=
+Definition coeff_ok (C : list (list Q)) (total : Q) (s : sample) (c : Q * wkind) : Prop :=
   exists cs, chosen_coeffs C (s_ids s) = Ok cs /\ c = (coeff_value total (kappa_all C) (s_w s) cs, s_t s).
 
 Lemma core_coeffs gh gsx env C table og W out coeffs :
   core gh gsx env C table og W = Ok (out, coeffs) ->
-  Forall2 (coeff_ok C (qsum (map s_w W))) (sort_samples W) coeffs.
+  Forall2 (coeff_ok C (total_weight W)) (sort_samples W) coeffs.
 Proof.
   intros H. apply core_inv in H as (rows & Hf & _ & ->).
   apply Forall2_map_r. eapply Forall2_imp; [|exact Hf].
@@ -232,14 +238,14 @@ Proof.
 Qed.
 
 Lemma abs_coeff total kap w cs :
-  (0 <= w)%Q -> (0 < total)%Q -> (0 <= kap)%Q -> ~ (qprod cs == 0)%Q ->
+  (0 <= w)%Q -> (0 < total)%Q -> (0 <= kap)%Q -> ~ (prodQ cs == 0)%Q ->
   (Qabs (coeff_value total kap w cs) == w / total * kap)%Q.
 Proof.
   intros Hw Ht Hk Hp. unfold coeff_value.
   assert (Hq : (0 <= w / total * kap)%Q).
   { apply Qmult_le_0_compat; [|exact Hk]. unfold Qdiv. apply Qmult_le_0_compat; [exact Hw|].
     apply Qinv_le_0_compat. now apply Qlt_le_weak. }
-  destruct (qsign_cases (qprod cs)) as [[_ ->]|[[_ ->]|[H0 _]]]; [| |contradiction].
+  destruct (qsign_cases (prodQ cs)) as [[_ ->]|[[_ ->]|[H0 _]]]; [| |contradiction].
   - rewrite Qabs_pos; [ring|]. setoid_replace (w / total * (kap * 1))%Q with (w / total * kap)%Q by ring. exact Hq.
   - rewrite Qabs_neg.
     + ring.
@@ -252,13 +258,13 @@ Lemma sum_abs_coeffs C total (S : list sample) coeffs :
   Forall2 (coeff_ok C total) S coeffs ->
   (0 < total)%Q ->
   (forall s, In s S -> (0 <= s_w s)%Q) ->
-  (forall s cs, In s S -> chosen_coeffs C (s_ids s) = Ok cs -> ~ (qprod cs == 0)%Q) ->
-  (qsum (map (fun c => Qabs (fst c)) coeffs) == qsum (map s_w S) / total * kappa_all C)%Q.
+  (forall s cs, In s S -> chosen_coeffs C (s_ids s) = Ok cs -> ~ (prodQ cs == 0)%Q) ->
+  (sumQ (map (fun c => Qabs (fst c)) coeffs) == sumQ (map s_w S) / total * kappa_all C)%Q.
 Proof.
   intros HF Ht. induction HF as [|s c S coeffs (cs & Hcs & ->) HF IH]; intros Hw Hp.
   - simpl. unfold Qdiv. ring.
-  - change ((Qabs (coeff_value total (kappa_all C) (s_w s) cs) + qsum (map (fun c => Qabs (fst c)) coeffs)
-             == (s_w s + qsum (map s_w S)) / total * kappa_all C)%Q).
+  - change ((Qabs (coeff_value total (kappa_all C) (s_w s) cs) + sumQ (map (fun c => Qabs (fst c)) coeffs)
+             == (s_w s + sumQ (map s_w S)) / total * kappa_all C)%Q).
     rewrite IH; [|intros; apply Hw; now right|intros s' cs' Hs'; apply Hp; now right].
     rewrite abs_coeff; [unfold Qdiv; ring|apply Hw; now left|exact Ht|apply kappa_all_nonneg|].
     apply (Hp s cs); [now left|exact Hcs].
@@ -266,12 +272,12 @@ Qed.
 
 Lemma sign_coeff total kap w cs :
   (0 < w)%Q -> (0 < total)%Q -> (0 < kap)%Q ->
-  qsign (coeff_value total kap w cs) = qsign (qprod cs).
+  qsign (coeff_value total kap w cs) = qsign (prodQ cs).
 Proof.
   intros Hw Ht Hk. unfold coeff_value.
   assert (Hq : (0 < w / total * kap)%Q).
   { apply Qmult_lt_0_compat; [|exact Hk]. unfold Qdiv. apply Qmult_lt_0_compat; [exact Hw|]. now apply Qinv_lt_0_compat. }
-  destruct (qsign_cases (qprod cs)) as [[_ ->]|[[_ ->]|[_ ->]]].
+  destruct (qsign_cases (prodQ cs)) as [[_ ->]|[[_ ->]|[_ ->]]].
   - apply qsign_pos. setoid_replace (w / total * (kap * 1))%Q with (w / total * kap)%Q by ring. exact Hq.
   - apply qsign_neg. setoid_replace (w / total * (kap * -1))%Q with (- (w / total * kap))%Q by ring.
     setoid_replace 0%Q with (- 0)%Q by reflexivity. now apply Qopp_lt_compat.
@@ -279,30 +285,44 @@ Proof.
 Qed.
 
 (* ---------------- exact (infinite-budget) weights ---------------- *)
+(* itertools.product over range(len(p)) for p in probs : all joint map ids *)
+Fixpoint joint_maps (dims : list nat) : list jkey :=
+  match dims with
+  | [] => [[]]
+  | n :: r => flat_map (fun i => map (cons i) (joint_maps r)) (seq 0 n)
+  end.
+
+(* product of the chosen probabilities *)
+Fixpoint joint_prob (probs : list (list Q)) (ids : jkey) : Q :=
+  match probs, ids with
+  | v :: rv, i :: ri => (nth i v 0 * joint_prob rv ri)%Q
+  | _, _ => 1%Q
+  end.
+
 (* QPDBasis.probabilities = |coeffs| / kappa *)
 Definition probs_of (C : list (list Q)) : list (list Q) :=
   map (fun cs => map (fun c => (Qabs c / kappa_of cs)%Q) cs) C.
 
 Lemma jointp_probs : forall C ids cs,
   chosen_coeffs C ids = Ok cs -> (forall v, In v C -> ~ (kappa_of v == 0)%Q) ->
-  (jointp (probs_of C) ids * kappa_all C == qprod (map Qabs cs))%Q.
+  (joint_prob (probs_of C) ids * kappa_all C == prodQ (map Qabs cs))%Q.
 Proof.
   induction C as [|v C IH]; intros [|i ids] cs H Hk; simpl in H; try discriminate.
   - inversion H. reflexivity.
   - destruct (nth_error v i) as [c|] eqn:E; [|discriminate].
     apply res_map_ok in H as (cs' & H & ->).
     specialize (IH _ _ H (fun v' Hv' => Hk v' (or_intror Hv'))).
-    cbn [probs_of map jointp]. fold (probs_of C).
+    cbn [probs_of map joint_prob]. fold (probs_of C).
     assert (Hn : nth i (map (fun c0 => (Qabs c0 / kappa_of v)%Q) v) 0%Q = (Qabs c / kappa_of v)%Q).
     { apply nth_error_nth. now rewrite nth_error_map, E. }
-    rewrite Hn. unfold kappa_all in *. cbn [map qprod fold_right].
-    fold (qprod (map kappa_of C)). fold (qprod (map Qabs cs')). rewrite <- IH.
+    rewrite Hn. unfold kappa_all in *. cbn [map prodQ fold_right].
+    fold (prodQ (map kappa_of C)). fold (prodQ (map Qabs cs')). rewrite <- IH.
     field. apply Hk. now left.
 Qed.
 
 (* sum over all joint maps of the product of probabilities = product of the sums *)
 Lemma qsum_flat_map {A B} (f : B -> Q) (g : A -> list B) l :
-  (qsum (map f (flat_map g l)) == qsum (map (fun a => qsum (map f (g a))) l))%Q.
+  (sumQ (map f (flat_map g l)) == sumQ (map (fun a => sumQ (map f (g a))) l))%Q.
 Proof.
   induction l as [|a l IH]; simpl; [reflexivity|]. rewrite map_app, qsum_app, IH. reflexivity.
 Qed.
@@ -313,30 +333,30 @@ Proof.
   rewrite <- seq_shift, map_map. exact IH.
 Qed.
 
-Lemma cart_sum probs :
-  (qsum (map (jointp probs) (cart (map (@length Q) probs))) == qprod (map qsum probs))%Q.
+Lemma joint_maps_sum probs :
+  (sumQ (map (joint_prob probs) (joint_maps (map (@length Q) probs))) == prodQ (map sumQ probs))%Q.
 Proof.
   induction probs as [|v r IH]; [simpl; ring|].
-  cbn [map cart]. rewrite qsum_flat_map.
-  rewrite (qsum_map_ext _ (fun i => (nth i v 0 * qprod (map qsum r))%Q)).
-  - rewrite qsum_scale, map_nth_seq. unfold qprod. cbn [fold_right]. reflexivity.
-  - intros i _. rewrite map_map. cbn [jointp].
+  cbn [map joint_maps]. rewrite qsum_flat_map.
+  rewrite (qsum_map_ext _ (fun i => (nth i v 0 * prodQ (map sumQ r))%Q)).
+  - rewrite qsum_scale, map_nth_seq. unfold prodQ. cbn [fold_right]. reflexivity.
+  - intros i _. rewrite map_map. cbn [joint_prob].
     rewrite <- IH, Qmult_comm, <- qsum_scale.
     apply qsum_map_ext. intros c _. ring.
 Qed.
 
 Lemma probs_sum_one C : (forall v, In v C -> ~ (kappa_of v == 0)%Q) ->
-  (qprod (map qsum (probs_of C)) == 1)%Q.
+  (prodQ (map sumQ (probs_of C)) == 1)%Q.
 Proof.
   induction C as [|v C IH]; intros Hk; [reflexivity|].
-  cbn [probs_of map]. fold (probs_of C). unfold qprod in *. cbn [fold_right].
+  cbn [probs_of map]. fold (probs_of C). unfold prodQ in *. cbn [fold_right].
   rewrite IH by (intros; apply Hk; now right).
-  assert (H : (qsum (map (fun c => Qabs c / kappa_of v) v) == kappa_of v / kappa_of v)%Q).
+  assert (H : (sumQ (map (fun c => Qabs c / kappa_of v) v) == kappa_of v / kappa_of v)%Q).
   { unfold Qdiv at 1. rewrite (qsum_scale (/ kappa_of v) Qabs v). reflexivity. }
   rewrite H. field. apply Hk. now left.
 Qed.
 
-(* cart: membership and absence of duplicates *)
+(* joint_maps: membership and absence of duplicates *)
 Lemma NoDup_app_intro {A} (a b : list A) :
   NoDup a -> NoDup b -> (forall x, In x a -> ~ In x b) -> NoDup (a ++ b).
 Proof.
@@ -346,10 +366,10 @@ Proof.
   - apply IH; [exact Hb|]. intros y Hy. apply Hd. now right.
 Qed.
 
-Lemma NoDup_cart dims : NoDup (cart dims).
+Lemma NoDup_joint_maps dims : NoDup (joint_maps dims).
 Proof.
   induction dims as [|n r IH]; [repeat constructor; intros []|].
-  cbn [cart]. generalize (seq_NoDup n 0). generalize (seq 0 n) as l.
+  cbn [joint_maps]. generalize (seq_NoDup n 0). generalize (seq 0 n) as l.
   induction l as [|i l IHl]; intros Hnd; [constructor|].
   inversion Hnd as [|? ? Hi Hl]; subst. cbn [flat_map]. apply NoDup_app_intro.
   - apply FinFun.Injective_map_NoDup; [|exact IH]. intros a b H; now inversion H.
@@ -359,9 +379,9 @@ Proof.
     inversion Hc'; subst. contradiction.
 Qed.
 
-Lemma In_cart : forall dims ids, In ids (cart dims) <-> Forall2 lt ids dims.
+Lemma In_joint_maps : forall dims ids, In ids (joint_maps dims) <-> Forall2 lt ids dims.
 Proof.
-  induction dims as [|n r IH]; intros ids; cbn [cart].
+  induction dims as [|n r IH]; intros ids; cbn [joint_maps].
   - split; [intros [<-|[]]; constructor|intros H; inversion H; now left].
   - rewrite in_flat_map. split.
     + intros (i & Hi & H). apply in_map_iff in H as (c & <- & Hc). apply in_seq in Hi.
@@ -370,10 +390,10 @@ Proof.
       apply in_map. now apply IH.
 Qed.
 
-Lemma chosen_coeffs_in_cart : forall C ids cs,
-  chosen_coeffs C ids = Ok cs -> In ids (cart (map (@length Q) C)).
+Lemma chosen_coeffs_in_joint_maps : forall C ids cs,
+  chosen_coeffs C ids = Ok cs -> In ids (joint_maps (map (@length Q) C)).
 Proof.
-  intros C ids cs H. apply In_cart. revert ids cs H.
+  intros C ids cs H. apply In_joint_maps. revert ids cs H.
   induction C as [|v C IH]; intros [|i ids] cs H; simpl in H; try discriminate; [constructor|].
   destruct (nth_error v i) as [c|] eqn:E; [|discriminate].
   apply res_map_ok in H as (cs' & H & ->). simpl. constructor; [|eapply IH; eauto].
@@ -382,18 +402,18 @@ Qed.
 
 (* a dictionary that lists every joint map of non-zero probability, each once, with its exact probability,
    has total weight 1 *)
-Definition exact_weights (C : list (list Q)) (W : wdict) : Prop :=
+Definition exact_weights (C : list (list Q)) (W : sdict) : Prop :=
   NoDup (map s_ids W) /\
-  (forall s, In s W -> In (s_ids s) (cart (map (@length Q) C)) /\ (s_w s == jointp (probs_of C) (s_ids s))%Q) /\
-  (forall ids, In ids (cart (map (@length Q) C)) -> ~ (jointp (probs_of C) ids == 0)%Q -> In ids (map s_ids W)).
+  (forall s, In s W -> In (s_ids s) (joint_maps (map (@length Q) C)) /\ (s_w s == joint_prob (probs_of C) (s_ids s))%Q) /\
+  (forall ids, In ids (joint_maps (map (@length Q) C)) -> ~ (joint_prob (probs_of C) ids == 0)%Q -> In ids (map s_ids W)).
 
 Lemma qsum_filter_split {A} (f : A -> Q) (P : A -> bool) l :
-  (qsum (map f l) == qsum (map f (filter P l)) + qsum (map f (filter (fun x => negb (P x)) l)))%Q.
+  (sumQ (map f l) == sumQ (map f (filter P l)) + sumQ (map f (filter (fun x => negb (P x)) l)))%Q.
 Proof.
   induction l as [|x l IH]; simpl; [ring|]. destruct (P x); simpl; rewrite IH; ring.
 Qed.
 
-Lemma qsum_zero {A} (f : A -> Q) l : (forall x, In x l -> (f x == 0)%Q) -> (qsum (map f l) == 0)%Q.
+Lemma qsum_zero {A} (f : A -> Q) l : (forall x, In x l -> (f x == 0)%Q) -> (sumQ (map f l) == 0)%Q.
 Proof.
   induction l as [|x l IH]; intros H; simpl; [reflexivity|].
   rewrite (H x (or_introl eq_refl)), IH; [ring|]. intros; apply H; now right.
@@ -403,25 +423,25 @@ Lemma probs_of_dims C : map (@length Q) (probs_of C) = map (@length Q) C.
 Proof. unfold probs_of. rewrite map_map. apply map_ext. intros; apply map_length. Qed.
 
 Lemma exact_weights_total C W :
-  (forall v, In v C -> ~ (kappa_of v == 0)%Q) -> exact_weights C W -> (qsum (map s_w W) == 1)%Q.
+  (forall v, In v C -> ~ (kappa_of v == 0)%Q) -> exact_weights C W -> (sumQ (map s_w W) == 1)%Q.
 Proof.
   intros Hk (Hnd & Hin & Hall).
-  set (P := probs_of C). set (K := map s_ids W). set (mem := fun ids => existsb (key_eqb ids) K).
+  set (P := probs_of C). set (K := map s_ids W). set (mem := fun ids : jkey => existsb (list_beq Nat.eqb ids) K).
   assert (Hmem : forall ids, mem ids = true <-> In ids K).
   { intros ids. unfold mem. rewrite existsb_exists. split.
     - intros (k & Hk1 & Hk2). apply list_beq_eq in Hk2; [now subst|]. intros a b; apply Nat.eqb_eq.
     - intros H. exists ids. split; [exact H|]. apply list_beq_refl. intros; apply Nat.eqb_refl. }
-  rewrite <- (probs_sum_one C Hk), <- cart_sum, probs_of_dims. fold P.
-  rewrite (qsum_filter_split (jointp P) mem (cart _)).
-  rewrite (qsum_zero (jointp P) (filter (fun x => negb (mem x)) _)).
+  rewrite <- (probs_sum_one C Hk), <- joint_maps_sum, probs_of_dims. fold P.
+  rewrite (qsum_filter_split (joint_prob P) mem (joint_maps _)).
+  rewrite (qsum_zero (joint_prob P) (filter (fun x => negb (mem x)) _)).
   - rewrite Qplus_0_r.
-    rewrite (qsum_map_ext s_w (fun s => jointp P (s_ids s)) W) by (intros s Hs; apply (Hin s Hs)).
-    rewrite <- (map_map s_ids (jointp P)). fold K.
-    apply qsum_perm, Permutation_map, NoDup_Permutation; [exact Hnd|apply NoDup_filter, NoDup_cart|].
+    rewrite (qsum_map_ext s_w (fun s => joint_prob P (s_ids s)) W) by (intros s Hs; apply (Hin s Hs)).
+    rewrite <- (map_map s_ids (joint_prob P)). fold K.
+    apply qsum_perm, Permutation_map, NoDup_Permutation; [exact Hnd|apply NoDup_filter, NoDup_joint_maps|].
     intros ids. rewrite filter_In, Hmem. split; [|tauto].
     intros H. split; [|exact H]. unfold K in H. apply in_map_iff in H as (s & <- & Hs). apply (Hin s Hs).
   - intros ids Hi. apply filter_In in Hi as (Hc & Hm). apply negb_true_iff in Hm.
-    destruct (Qeq_dec (jointp P ids) 0) as [E|E]; [exact E|].
+    destruct (Qeq_dec (joint_prob P ids) 0) as [E|E]; [exact E|].
     exfalso. assert (In ids K) by (apply Hall; assumption). apply Hmem in H. congruence.
 Qed.
 
@@ -429,18 +449,18 @@ Qed.
 Lemma exact_coeff C W s cs :
   (forall v, In v C -> ~ (kappa_of v == 0)%Q) -> exact_weights C W -> In s W ->
   chosen_coeffs C (s_ids s) = Ok cs ->
-  (coeff_value (qsum (map s_w W)) (kappa_all C) (s_w s) cs == qprod cs)%Q.
+  (coeff_value (total_weight W) (kappa_all C) (s_w s) cs == prodQ cs)%Q.
 Proof.
   intros Hk HW Hs Hcs. unfold coeff_value.
-  rewrite (exact_weights_total C W Hk HW).
+  rewrite total_weight_eq, (exact_weights_total C W Hk HW).
   destruct HW as (_ & Hin & _). destruct (Hin s Hs) as (_ & Hw). rewrite Hw.
   assert (Hkap : ~ (kappa_all C == 0)%Q).
   { unfold kappa_all. clear -Hk. induction C as [|v C IH]; [discriminate|].
-    cbn [map qprod fold_right]. fold (qprod (map kappa_of C)). intros H.
+    cbn [map prodQ fold_right]. fold (prodQ (map kappa_of C)). intros H.
     apply Qmult_integral in H as [H|H]; [apply (Hk v); [now left|exact H]|].
     apply IH; [intros; apply Hk; now right|exact H]. }
-  setoid_replace (jointp (probs_of C) (s_ids s) / 1 * (kappa_all C * qsign (qprod cs)))%Q
-    with ((jointp (probs_of C) (s_ids s) * kappa_all C) * qsign (qprod cs))%Q by (field; discriminate).
+  setoid_replace (joint_prob (probs_of C) (s_ids s) / 1 * (kappa_all C * qsign (prodQ cs)))%Q
+    with ((joint_prob (probs_of C) (s_ids s) * kappa_all C) * qsign (prodQ cs))%Q by (field; discriminate).
   rewrite (jointp_probs C (s_ids s) cs Hcs Hk), <- qprod_abs. apply qsign_abs.
 Qed.
 
@@ -477,7 +497,7 @@ Proof.
 Qed.
 
 (* "circuit e is built from joint map `joint`, partition l, group g" *)
-Definition built (gh gsx : nat) (env : benv) (table : list (nat * pinfo)) (joint : key) (l : nat)
+Definition built (gh gsx : nat) (env : benv) (table : list (nat * pinfo)) (joint : jkey) (l : nat)
            (g : ogroup) (e : mcirc) : Prop :=
   exists p ms, alookup table l = Some p /\
     match pi_sfx p with None => Ok joint | Some sfx => project joint sfx end = Ok ms /\
@@ -572,19 +592,19 @@ Qed.
 (* the declarative description of one subexperiment BEFORE the three reset passes *)
 Definition nobs (g : ogroup) : nat := length (pauli_indices_or_dummy (og_indices g)).
 
-Definition spliced (env : benv) (qc : mcirc) (ids : list (list nat)) (ms : key) : circ :=
+Definition spliced (env : benv) (qc : mcirc) (ids : list (list nat)) (ms : jkey) : circ :=
   flat_map (splice env) (assign (mdata qc) ids (Some (map Z.of_nat ms))).
 
-Definition nqpd (env : benv) (qc : mcirc) (ids : list (list nat)) (ms : key) : nat :=
+Definition nqpd (env : benv) (qc : mcirc) (ids : list (list nat)) (ms : jkey) : nat :=
   Nat.max 1 (count_markers (spliced env qc ids ms)).
 
 (* placeholders replaced, QPD measurement k writes clbit nc0 + nobs + k; when the group measures nothing the
    final resets are dropped (F2 repair) *)
-Definition body (env : benv) (qc : mcirc) (ids : list (list nat)) (ms : key) (g : ogroup) : circ :=
+Definition body (env : benv) (qc : mcirc) (ids : list (list nat)) (ms : jkey) (g : ogroup) : circ :=
   let b := measures_numbered (mnc qc + nobs g) (spliced env qc ids ms) in
   match og_indices g with [] => remove_final_resets (mnq qc) b | _ :: _ => b end.
 
-Definition spec_exp (gh gsx : nat) (env : benv) (qc : mcirc) (ids : list (list nat)) (ms : key) (g : ogroup) : mcirc :=
+Definition spec_exp (gh gsx : nat) (env : benv) (qc : mcirc) (ids : list (list nat)) (ms : jkey) (g : ogroup) : mcirc :=
   mkMC (mnq qc)
        (mnc qc + nobs g + nqpd env qc ids ms)
        (mcregs qc ++ [(true, seq (mnc qc) (nobs g)); (false, seq (mnc qc + nobs g) (nqpd env qc ids ms))])
@@ -936,4 +956,42 @@ Lemma generate_refuses_1q gh gsx env cenv qc groups N W x :
 Proof.
   intros HN Hin Hx. unfold generate. rewrite HN. cbn [negb res_bind].
   now rewrite (get_bases_refuses _ 0 x Hin Hx).
+Qed.
+
+(* ====================================================================== *)
+(* I. bridge to Model/Weights.v (property C04): same shapes, other names   *)
+(* ====================================================================== *)
+From CKT Require Model.Weights.
+
+Definition of_wtype (t : Weights.wtype) : wkind :=
+  match t with Weights.EXACT => KExact | Weights.SAMPLED => KSampled end.
+Definition of_num (n : Weights.num) : nsamples :=
+  match n with Weights.Fin q => NFin q | Weights.PInf => NPosInf | Weights.NInf => NNegInf | Weights.NaN => NNaN end.
+(* the dictionary returned by the C04 model, as the argument of `generate` *)
+Definition of_wdict (d : Weights.wdict) : sdict :=
+  map (fun kv => (fst kv, (fst (snd kv), of_wtype (snd (snd kv))))) d.
+
+Lemma bridge_sum l : sumQ l = Weights.qsum l.
+Proof. reflexivity. Qed.
+Lemma bridge_prod l : prodQ l = Weights.qprod l.
+Proof. reflexivity. Qed.
+Lemma bridge_joint_maps dims : joint_maps dims = Weights.cart dims.
+Proof. induction dims as [|n r IH]; [reflexivity|]; cbn [joint_maps Weights.cart]; now rewrite IH. Qed.
+Lemma bridge_joint_prob : forall probs ids, joint_prob probs ids = Weights.jointp probs ids.
+Proof. induction probs as [|v r IH]; intros [|i ids]; try reflexivity; cbn [joint_prob Weights.jointp]; now rewrite IH. Qed.
+Lemma bridge_keys d : map s_ids (of_wdict d) = map fst d.
+Proof. unfold of_wdict. rewrite map_map. reflexivity. Qed.
+Lemma bridge_weights d : map s_w (of_wdict d) = map (fun kv => fst (snd kv)) d.
+Proof. unfold of_wdict. rewrite map_map. reflexivity. Qed.
+Lemma bridge_ge1 n : ge1 (of_num n) = true <-> (n = Weights.PInf \/ exists q, n = Weights.Fin q /\ (1 <= q)%Q).
+Proof.
+  destruct n as [q| | |]; cbn [of_num ge1]; split.
+  - intros H. right. exists q. split; [reflexivity|now apply Qle_bool_iff].
+  - intros [H|(q' & H & Hq)]; [discriminate|]. inversion H; subst. now apply Qle_bool_iff.
+  - intros _. now left.
+  - reflexivity.
+  - discriminate.
+  - intros [H|(q' & H & _)]; discriminate.
+  - discriminate.
+  - intros [H|(q' & H & _)]; discriminate.
 Qed.
